@@ -246,6 +246,43 @@ func propC18(c *Check) {
 		}
 		if !found {
 			c.Violated("R2", "queue-"+q.f+"-rebuilt", p.Pos(rig.Pos()), "InitGenesis does not rebuild queue."+q.f+" from the voter status reason=not-established")
+			continue
+		}
+		// and conversely every imported voter with that status is queued (the running chain queues each one, member of
+		// the group or not — the election is the only place that retires the record): the record is stored without
+		// the append only over an outcome "status differs"
+		var appends, sets []ssa.Instruction
+		for _, s := range p.renderedStores(rig) {
+			if strings.HasSuffix(s.addr, "VoterQueue)#0."+q.f) && strings.HasPrefix(s.val, "append(") {
+				appends = append(appends, s.in)
+			}
+		}
+		for _, ci := range p.FindCalls(rig, `^Voters\.Set\(`) {
+			sets = append(sets, ci)
+		}
+		differs := map[edgeKey]bool{}
+		for _, ef := range p.EdgeFacts(rig) {
+			if m := cmpRe.FindStringSubmatch(ef.Fact); m != nil && m[2] == "!=" && (m[1] == q.st && strings.HasSuffix(m[3], ".Status") || m[3] == q.st && strings.HasSuffix(m[1], ".Status")) {
+				differs[ef.Key()] = true
+			}
+			// equal to another status constant
+			if m := cmpRe.FindStringSubmatch(ef.Fact); m != nil && m[2] == "==" {
+				k, v := m[1], m[3]
+				if strings.HasSuffix(k, ".Status") {
+					k, v = v, k
+				}
+				if strings.HasPrefix(k, "VOTER_STATUS_") && k != q.st && strings.HasSuffix(v, ".Status") {
+					differs[ef.Key()] = true
+				}
+			}
+		}
+		cons := "queue-" + q.f + "-holds-every-voter-of-that-status"
+		if len(sets) == 0 || len(differs) == 0 {
+			c.Violated("R2", cons, p.Pos(rig.Pos()), fmt.Sprintf("%d voter stores, %d tests of the status against %s reason=not-established", len(sets), len(differs), q.st))
+		} else if t, path := (&PathSearch{Fn: rig, AvoidInstr: instrSet(appends), AvoidEdges: differs, IsTarget: instrSet(sets)}).Find(); t != nil {
+			c.Violated("R2", cons, p.InstrPos(t), "a voter record with status "+q.st+" is imported without being put into queue."+q.f, p.describePath(path)...)
+		} else {
+			c.Held("R2", cons, p.InstrPos(appends[0]), "the record is stored without the append only when its status differs")
 		}
 	}
 	// R3
